@@ -37,7 +37,7 @@ class Score(Contract):
     def ls(self, ex, st, args, x):
         g = args["model"]
         a = fresh("a", Atom)
-        pa = Coll("list", Atom, z3.Lambda([a], g.fields["_E"][a, x]), nodup=True)
+        pa = Coll("list", Atom, z3.Lambda([a], g.fields["@E"][a, x]), nodup=True)
         return ex.call_opaque(args["self"].fields["__opaque__"]["local_score"], [Scalar(x), pa], {}, st).z
 
     def post(self, ex, st, args, old, result):
@@ -45,7 +45,7 @@ class Score(Contract):
             return z3.BoolVal(False)
         prior = ex.call_opaque(args["self"].fields["__opaque__"]["structure_prior"], [args["model"]], {}, st).z
         rz = result.z if result.z.sort() == R else z3.ToReal(result.z)
-        return z3.And(rz == self.Sum(old["_nodes"]) + prior, graph_unchanged(args["model"], old))
+        return z3.And(rz == self.Sum(old["@nodes"]) + prior, graph_unchanged(args["model"], old))
 
     def inv0(self, ex, st, args, old, ghost):
         D = ghost["done"]
